@@ -104,8 +104,8 @@ impl Check for C03 {
     }
     fn phases(&self, tier: Tier) -> Vec<Phase> {
         match tier {
-            Tier::Quick => vec![Phase::random("queues-profile", 7_000, 2048).batch(100).watchdog(30_000), Phase::random("data-guard-profile", 7_000, 2048).batch(100).watchdog(30_000)],
-            Tier::Thorough => vec![Phase::random("queues-profile", 80_000, 2048).batch(200).watchdog(30_000), Phase::random("data-guard-profile", 80_000, 2048).batch(200).watchdog(30_000)],
+            Tier::Quick => vec![Phase::random("queues-profile", 20_000, 2048).batch(100).watchdog(30_000), Phase::random("data-guard-profile", 20_000, 2048).batch(100).watchdog(30_000)],
+            Tier::Thorough => vec![Phase::random("queues-profile", 250_000, 2048).batch(200).watchdog(30_000), Phase::random("data-guard-profile", 250_000, 2048).batch(200).watchdog(30_000)],
         }
     }
     fn describe(&self, phase: usize, tape: &[u8]) -> String {
